@@ -886,6 +886,40 @@ def r10_retrieve_kinds(ctx, prog):
                 r.ok(f['qname'], site, 'copies %s' % (', '.join('%s@%s' % w for w in wr) if wr else 'nothing: rejected'), file=f['file'], line=f['line'])
 
 
+def r11_conversion_helpers(ctx, prog):
+    """The OSSL:: conversion helpers sit between attribute bytes the caller supplied and OpenSSL objects; their pointer parameters are NULL whenever an earlier conversion failed
+    (an unknown curve gives no group).  OpenSSL's EC/BN functions dereference their arguments, so every helper tests a pointer parameter before handing it on - most do; one that
+    does not is the crash."""
+    r = ctx.rule('C17.R11', 'the OSSL:: conversion helpers test their pointer parameters before handing them to OpenSSL', floor=6, engine='E2 dominance (contradiction rule: the siblings test)')
+    defined = {g['qname'] for g in prog.functions.values()}
+    for f in sorted(prog.functions.values(), key=lambda f: (f['file'], f['line'])):
+        if not f['qname'].startswith('OSSL::'):
+            continue
+        ptrs = [pp['var']['name'] for pp in f['params'] if pp.get('var') and (pp.get('type') or '').rstrip().endswith('*')]
+        if not ptrs or unanalysable(f):
+            continue
+
+        def trig(e, st):
+            if e.get('k') == 'Call' and e.get('callee') and e['callee'] not in defined and '::' not in e['callee']:
+                ps = tuple(a['name'] for a in e.get('args', []) if a is not None and a.get('k') == 'Var' and a['name'] in ptrs)
+                if ps:
+                    return (e['callee'], ps, e['l'])
+            return None
+        sf = SiteFacts(f, prog, trigger=trig, track_facts=r'^\w+$|^EQ\(\w+,NULL\)$').go()
+        r.paths += sf.paths_returned
+        if sf.sites:
+            ctx.analysed(f)
+        for (callee, ps, line), hits in sorted(sf.sites.items()):
+            for p_ in ps:
+                site = '%s(%s)@%d' % (callee, p_, line)
+                bad = [h for h in hits if (p_, True) not in h['facts'] and ('EQ(%s,NULL)' % p_, False) not in h['facts']]
+                if bad:
+                    r.violation(f['qname'], site, 'the parameter %s goes to %s without a NULL test; it is NULL when an earlier conversion of caller-supplied bytes failed (e.g. CKA_EC_PARAMS naming an unknown curve): OpenSSL dereferences it and the process crashes' % (p_, callee),
+                                file=f['file'], line=line, path=bad[0]['path'])
+                else:
+                    r.ok(f['qname'], site, 'tested first', file=f['file'], line=line)
+
+
 def run(ctx):
     prog = ctx.prog('ossl-file')
     r1_arrays(ctx, prog)
@@ -898,9 +932,13 @@ def run(ctx):
     r8_ownership(ctx, prog)
     r9_slot_table(ctx, prog)
     r10_retrieve_kinds(ctx, prog)
+    if any(g['qname'].startswith('OSSL::') for g in prog.functions.values()):
+        r11_conversion_helpers(ctx, prog)
 
 
 MUTANTS = [
+    dict(name='bytestring2pt-no-group-test', rule='C17.R11', file='src/lib/crypto/OSSLUtil.cpp', after='EC_POINT* OSSL::byteString2pt(',
+         old='if (len == 0 || grp == NULL) return NULL;', new='if (len == 0) return NULL;'),
     dict(name='retrieve-trusts-stored-kind', rule='C17.R10', file='src/lib/P11Attributes.cpp', after='CK_RV P11Attribute::retrieve(',
          old='\telse if (!(attr.isBooleanAttribute() && size == sizeof(CK_BBOOL)) &&\n\t\t !(attr.isUnsignedLongAttribute() && size == sizeof(CK_ULONG)))\n', new='\telse if (false)\n'),
     dict(name='bytestring2oid-unchecked-printablestring', rule='C17.R7', file='src/lib/crypto/OSSLUtil.cpp', after='int OSSL::byteString2oid(',
